@@ -278,3 +278,19 @@ def inline_new_functions(program):
     inlined = {c for cs in done.values() for c in cs}
     program.inlined_away = {c for c, k in remaining_calls.items() if k == 0 and T.short_path(c) in inlined}
     return done
+
+
+def strip_debug_assertions(program):
+    """The analysed configuration is the release build (debug_assertions off): `debug_assert!` / `debug_assert_eq!` /
+    `debug_assert_ne!` are compiled out there.  Their expansion `if cfg!(debug_assertions) { .. panic .. }` is replaced by `()`."""
+    n_ = 0
+    for b in program.facts["bodies"]:
+        if "tree" not in b:
+            continue
+        for n in T.nodes(b["tree"]):
+            if n.get("k") == "if" and str(n.get("exp") or "").startswith("debug_assert") and n.get("els") is None and T.lit_value(n["cond"]) is True:
+                sp = n.get("sp")
+                n.clear()
+                n.update({"k": "tuple", "id": 0, "ty": "()", "sp": sp, "es": [], "stripped": "debug_assert"})
+                n_ += 1
+    return n_
